@@ -180,6 +180,26 @@ theorem C11_unauthenticated_refused (w : World) (f : Nat) (c : Cmd) (h0 : ident 
   obtain ⟨_, _, ⟨⟨hv, hc⟩, hd⟩, hr⟩ := hm
   exact ⟨hr, hc, hv, hd⟩
 
+/-- the connection id the server gave connection `j` (what a packet would have to carry to name it) -/
+def connName (j : Nat) : String := s!"conn-{j}"
+
+/-- **No identity borrowing through the header**: a connection without a proven identity that stamps its packet
+with the *connection id* of any other connection of the world — for instance another client's live, authenticated
+control connection — in `SenderId` (or `ReceiverId`, `Token`) is treated exactly as if it had not: every command
+whose rule needs an identity is not answered with success, and nothing is changed, disclosed or pushed.
+(Claimed header fields range over all strings in `C11_noninterference`; connection ids, mapping ids, secret keys
+and codes of the world are strings like any other.) -/
+theorem C11_no_identity_borrowing (w : World) (f j : Nat) (c : Cmd) (h0 : ident w f = 0)
+    (hg : guarded c.ctype c.resp = true) :
+    let r := exec .repaired w f { c with snd := connName j, rcv := connName j, tok := connName j }
+    r.rsp ≠ .ok ∧ r.chg = [] ∧ r.view = [] ∧ r.dlv = [] := by
+  have h := C11_noninterference .repaired w f c (connName j) (connName j) (connName j) c.extra
+  have hc : ({ c with snd := connName j, rcv := connName j, tok := connName j, extra := c.extra } : Cmd) =
+      { c with snd := connName j, rcv := connName j, tok := connName j } := rfl
+  rw [hc] at h
+  simp only [h]
+  exact C11_unauthenticated_refused w f c h0 hg
+
 /-- even a command that needs no identity changes, discloses and pushes nothing on such a connection -/
 theorem C11_unauthenticated_inert (w : World) (f : Nat) (c : Cmd) (h0 : ident w f = 0) :
     (exec .repaired w f c).chg = [] ∧ (exec .repaired w f c).view = [] ∧ (exec .repaired w f c).dlv = [] := by
@@ -334,6 +354,12 @@ example : exec .repaired wStd 0 { cmdOf 76 0 0 0 with faults := 2 } = Run.okResp
 example : exec .repaired wStd 0 { cmdOf 76 0 0 0 with faults := 4 } = Run.okResp [] [.del (.map 0)] [] := by decide
 example : holds wStd 2 { cmdOf 76 0 0 0 with faults := 1 } (Run.okResp [] [.del (.map 0)] []) (Run.okResp [] [.del (.map 0)] []) = false := by
   decide
+/-- the unauthenticated connection 3 names client 1001's live connection (`conn-0`) as sender of an HTTP-domain list /
+delete / a notification: refused; and `holds` rejects the observation in which it was served as 1001 -/
+example : exec .repaired wStd 3 { cmdOf 87 0 0 0 with snd := connName 0 } = Run.failResp := by decide
+example : exec .repaired wStd 3 { cmdOf 86 0 0 0 with snd := connName 0 } = Run.failResp := by decide
+example : holds wStd 3 { cmdOf 87 0 0 0 with snd := connName 0 } (Run.okResp [.dom 0] [] []) Run.failResp = false := by decide
+example : holds wStd 3 { cmdOf 87 0 0 0 with snd := connName 0 } (Run.okResp [.dom 0] [] []) (Run.okResp [.dom 0] [] []) = false := by decide
 /-- `holds` rejects: a disclosure to a stranger; a packet whose claimed sender changed the outcome -/
 example : holds wStd 2 (cmdOf 75 0 0 0) ⟨true, .ok, [.map 0], [], [], []⟩ ⟨true, .ok, [.map 0], [], [], []⟩ = false := by decide
 example : holds wStd 2 (cmdOf 75 0 0 0) ⟨true, .ok, [], [], [], []⟩ Run.failResp = false := by decide
